@@ -2,7 +2,7 @@
 \* counterexample to the invariant named on the INVARIANT line (the driver substitutes
 \* NoRace / NoSplice / CompleteLast / NoUseAfterFinish in turn and replays the schedules
 \* against the real code).  A run of this configuration WITHOUT error is a specification
-\* regression.
+\* regression.  measured: counterexamples of 10 (NoRace, NoSplice), 11 (CompleteLast), 20 (NoUseAfterFinish) states, < 2 s each.
 INIT Init
 NEXT Next
 CONSTANTS
